@@ -62,14 +62,16 @@ def _parallel_dot_cumsum(
   """Parallel implementation of dot cumsum using lax primitives."""
   partials = _single_device_dot_cumsum(x, axis=axis, reverse=reverse)
   last_partial = lax.index_in_dim(partials, 0 if reverse else -1, axis)
-  sums = lax.all_gather(last_partial, axis_name, tiled=True)
+  # gather along `axis` itself, so that shard `i`'s total is `sums[..., i, ...]`
+  # also when the summed (sharded) axis is not the leading one.
+  sums = lax.all_gather(last_partial, axis_name, axis=axis, tiled=True)
   axis_index = lax.axis_index(axis_name)
   op = jnp.greater if reverse else jnp.less
   total = partials
-  terms = sums[1:] if reverse else sums[:-1]
-  start = 1 if reverse else 0
-  for i, term in enumerate(terms, start=start):
-    total += op(i, axis_index) * term
+  size = sums.shape[axis]
+  indices = range(1, size) if reverse else range(size - 1)
+  for i in indices:
+    total += op(i, axis_index) * lax.index_in_dim(sums, i, axis)
   return total
 
 
